@@ -569,6 +569,10 @@ func (s *attackSim) checkStops(final bool) {
 // a hit that the pacer has released and whose wait has elapsed must have
 // started unless max-workers hits are in flight.
 func (s *attackSim) checkQuiescent() {
+	if s.staleRelease() {
+		s.fail("C03", "C03.progress", "pacer released hit #%d and the loop has gone on to pace hit #%d, only %d of %d workers are busy, every goroutine is blocked, yet hit #%d has not started (a released hit starts without waiting for another request to finish, or for the next one to be due)", s.S, s.P-1, s.inflight(), s.cfg.M, s.S)
+		return
+	}
 	if !s.suspectNoProgress() {
 		return
 	}
@@ -606,6 +610,23 @@ func (s *attackSim) afterAdvance() {
 		s.durTrig = true
 		s.trigger("duration-elapsed")
 	}
+}
+
+// staleRelease: the loop asks the pacer about hit k+1 only after hit k has been handed to a worker, so at a clean
+// quiescent state at most the hit released last can be waiting for its start; an older one that has not started
+// while fewer than max-workers are busy is stuck behind something (a buffered hand-over, a worker that was not
+// added), whatever the wait of the current hit still is.
+func (s *attackSim) staleRelease() bool {
+	if s.anyTrigger || s.durPossible || s.drain || s.viol != nil || s.S+1 >= s.P || s.inflight() >= s.cfg.M {
+		return false
+	}
+	for _, ar := range s.w.Pending {
+		switch ar.Kind {
+		case simrt.KBP, simrt.KSelect, simrt.KLockWait, kPaceAns, kPace:
+			return false
+		}
+	}
+	return true
 }
 
 func (s *attackSim) suspectNoProgress() bool {
